@@ -619,6 +619,13 @@ class Interp:
             if isinstance(b, dict) and isinstance(a, tuple) and all(isinstance(x, (str, int, type(None))) for x in a):
                 r = a in b
                 return r if isinstance(op, ast.In) else (not r)
+
+            def _plain(k):
+                # constants and ("id", n) tokens, nested in tuples: Python equality is the run-time equality
+                return k is None or isinstance(k, (str, int)) or (isinstance(k, tuple) and all(_plain(x) for x in k))
+            if isinstance(b, dict) and isinstance(a, tuple) and _plain(a) and all(_plain(k) for k in b):
+                r = a in b
+                return r if isinstance(op, ast.In) else (not r)
             if isinstance(b, dict) and isinstance(a, Obj) and any(isinstance(k, Obj) for k in b):
                 r = any(k is a for k in b)
                 return r if isinstance(op, ast.In) else (not r)
@@ -976,6 +983,27 @@ class Interp:
             bound = env.get(n)
             if bound is None and n in ("list", "tuple", "set", "dict", "any", "all", "sorted", "enumerate", "zip", "len", "sum", "frozenset", "reversed", "map", "min", "max"):
                 args = [self.force(a) for a in args]
+            if bound is None and n == "reduce" and len(args) in (2, 3) and not kwargs and isinstance(self.force(args[1]), (list, tuple)):
+                # functools.reduce over a concrete sequence with an interpretable function
+                fnv, seq = args[0], list(self.force(args[1]))
+                if len(args) == 3:
+                    acc = args[2]
+                elif seq:
+                    acc, seq = seq[0], seq[1:]
+                else:
+                    raise _Raise("TypeError")
+                for item in seq:
+                    if isinstance(fnv, DefClosure):
+                        acc = self.call_def_closure(fnv, [acc, item], {})
+                    elif isinstance(fnv, Closure) and len(fnv.node.args.args) == 2:
+                        sub = dict(fnv.env)
+                        sub[fnv.node.args.args[0].arg], sub[fnv.node.args.args[1].arg] = acc, item
+                        acc = self.eval(fnv.node.body, sub, fnv.func)
+                    elif isinstance(fnv, PyFunc):
+                        acc = fnv.fn(acc, item)
+                    else:
+                        raise Unsupported("reduce() with a function the interpreter cannot follow")
+                return acc
             if isinstance(bound, Closure) and not kwargs and len(bound.node.args.args) == len(args):
                 sub = dict(bound.env)
                 for a_, v_ in zip(bound.node.args.args, args):
